@@ -163,7 +163,7 @@ def swarm_opts(ch: Choices, reorder: bool = True, lost_ack: bool = True) -> DOpt
 
 def run_exec(prog: Program, knobs: Knobs, choices: Choices, opts: DOpts | None,
              setup: Callable[[Exec], None] | None = None, max_steps: int | None = None,
-             cancel_requested: bool = False) -> dict[str, Any]:
+             cancel_requested: bool = False, post: Callable[[Exec, dict[str, Any]], Any] | None = None) -> dict[str, Any]:
     from sim.oracles import always_on
 
     ex = Exec(prog, knobs, choices, opts)
@@ -174,7 +174,9 @@ def run_exec(prog: Program, knobs: Knobs, choices: Choices, opts: DOpts | None,
         res = ex.run(max_steps=max_steps, on_crash=getattr(ex, "on_crash_hook", None), sweeps=getattr(ex, "sweeps", 1))
         fs, h = ex.finish()
         w = ex.world
-        return {"fs": fs, "h": h, "res": res, "quiescent": res.quiescent, "counts": ledger_counts(w),
+        extra = post(ex, fs) if post is not None else None
+        return {"post": extra, "bus_log": list(w.bus_log),
+                "fs": fs, "h": h, "res": res, "quiescent": res.quiescent, "counts": ledger_counts(w),
                 "views": views_by_task(w.ledger), "ledger": list(w.ledger), "digest": history_digest(h),
                 "always": always_on(h, prog, fs, res.quiescent, cancel_requested),
                 "faults": dict(w.faults_fired), "probes": dict(w.probes), "sim_us": w.clock.us - seams.EPOCH_US,
@@ -307,7 +309,8 @@ def run_w(prog: Program, knobs: Knobs, choices: Choices, nworkers: int = 2, stra
         fs = final_state(w, wf_id)
         h = History(w, wf_id)
         quiescent = end == "quiescent" and not errs
-        return {"fs": fs, "h": h, "end": end, "quiescent": quiescent, "counts": ledger_counts(w),
+        return {"bus_log": list(w.bus_log),
+                "fs": fs, "h": h, "end": end, "quiescent": quiescent, "counts": ledger_counts(w),
                 "views": views_by_task(w.ledger), "ledger": list(w.ledger), "digest": history_digest(h),
                 "always": always_on(h, prog, fs, quiescent), "faults": dict(w.faults_fired), "probes": dict(w.probes),
                 "sim_us": w.clock.us - seams.EPOCH_US, "steps": stats["w_steps"], "errors": errs, "notes": list(w.notes),
